@@ -1,3 +1,5 @@
+import Hannibal.Props.C09P
+import Hannibal.Props.C09Current
 import Hannibal.Props.C09Q
 import Hannibal.Props.C09
 #print axioms Hannibal.C09_holds
@@ -5,3 +7,6 @@ import Hannibal.Props.C09
 #print axioms Hannibal.deliver_ok
 #print axioms Hannibal.C09q_holds
 #print axioms Hannibal.C09qs_holds
+#print axioms Hannibal.shape09_current
+#print axioms Hannibal.C09p_progress
+#print axioms Hannibal.C09p_publish_returns
